@@ -16,7 +16,7 @@ def worker(patch):
     from rules import facts, mir
     from rules.facts import CheckerError
     from rules.registry import PROPS, RULES
-    from tools.selftest import make_copy
+    from tools.selftest import make_copy, KNOWN_KEYS
     d, dst = make_copy()
     out = {"fired": {}, "floors": {}, "errors": []}
     try:
@@ -44,7 +44,7 @@ def worker(patch):
                     continue
                 res = [x for x in cache[rid] if sel is None or sel(x)]
                 for x in res:
-                    if x["verdict"] == "violation":
+                    if x["verdict"] == "violation" and (pid, x["key"]) not in KNOWN_KEYS:
                         out["fired"].setdefault(pid, []).append(x["key"])
                 dec = [x for x in res if x["verdict"] in ("ok", "violation")]
                 if len(dec) < floor:
